@@ -87,13 +87,32 @@ def main(pid):
     idx = {t: i for i, t in enumerate(corpus)}
     pair_texts = (special + tie_texts)[:24]
     pairs = [[pair_texts[i], pair_texts[(i + 5) % len(pair_texts)]] for i in range(len(pair_texts))]
+    pairs[0] = [special[0], special[1]]
     ks_a = list(range(0, 330, 2 if thorough else 5))
     jobs = [{"pairs": [p], "ks": ks_a} for p in pairs]
     with ThreadPoolExecutor(vlib.NCPU) as ex:
         futs = [ex.submit(vlib.impl_run, "sched", "run", j, env={"PYTHONHASHSEED": str(3 + n % 5)}) for n, j in enumerate(jobs)]
         sres = [x for f in futs for x in f.result()]
-    fresh = [{"pairs": [pairs[n % len(pairs)]], "ks": [k]} for n, k in enumerate(range(0, 330, 4 if thorough else 11))]
-    fresh += [{"pairs": [list(reversed(pairs[(n + 3) % len(pairs)]))], "ks": [k]} for n, k in enumerate(range(0, 330, 6 if thorough else 17))]
+    # how many yield points does the FIRST call of a process have?  (lazy initialisation makes it longer
+    # than later calls; the pre-emption points are spread over that length)
+    probe = vlib.impl_run("sched", "run", {"pairs": [pairs[0]], "ks": [10 ** 9], "want_names": True}, env={"PYTHONHASHSEED": "0"})
+    first_len = max(probe[0]["steps"][0], 330)
+    # pre-emption points: the first three entries of every distinct function (code name) of the first
+    # call -- so a lazy initialiser is interrupted inside each of its steps -- plus an even spread
+    seen_name = {}
+    by_name = set()
+    for pos, nm in enumerate(probe[0]["names"]):
+        seen_name[nm] = seen_name.get(nm, 0) + 1
+        if seen_name[nm] <= 3:
+            by_name.update({pos, pos + 1})
+    nfresh = 96 if thorough else 40
+    spread = sorted({int(first_len * i / nfresh) for i in range(nfresh)} | by_name)
+    ev.cov["distinct_functions_at_yield_points"] = len(seen_name)
+    ev.cov["fresh_preemption_points"] = spread[:400]
+    # the fresh-process schedules use texts that exercise every token kind (stop words, id., supra,
+    # references, several reporters), so that a lost extractor class is visible in the result
+    rich = [special[0], special[1]]
+    fresh = [{"pairs": [rich if n % 2 == 0 else list(reversed(rich))], "ks": [k]} for n, k in enumerate(spread)]
     with ThreadPoolExecutor(vlib.NCPU) as ex:
         futs = [ex.submit(vlib.impl_run, "sched", "run", j, env={"PYTHONHASHSEED": str(n % 7)}) for n, j in enumerate(fresh)]
         fres = [x for f in futs for x in f.result()]
@@ -105,6 +124,7 @@ def main(pid):
                 recs.append({"seed": -1, "hist": -1, "text": idx[t], "opt": 0, "th": f"{kind}:k={x['k']}", "d": d, "dend": d,
                              "same_input": True, "base": bd(idx[t])})
     ev.cov["deterministic_schedules"] = nsched
+    ev.cov["first_call_yield_points"] = first_len
     ev.cov["yield_points_per_call"] = max((max(x["steps"]) for x in sres), default=0)
     fails, _ = tlc_judge("Trace_Purity", "Trace_Purity.cfg", recs, ev, "calls", chunk=50000)
     seen = set()
